@@ -13,7 +13,9 @@ Domain : histories of <= 25 ops over <= 2 proxies (each its own connection) and 
               ["call", p]   an unrelated normal call on proxy p (makes the recorded sequence number of its streams diverge:
                             close() then takes the "temporary second proxy" path)
               ["hk"]        daemon._housekeeping() from the harness thread   ["adv", dt]   advance the virtual clock
-         entity references are indices modulo the population (an op on a stream that does not exist yet is skipped).
+         entity references are indices modulo the population: a stream reference 0..5 is taken modulo the LIVE population
+         (client handle open, stream not known to be forgotten), 6.. modulo all streams opened so far (so ended streams are
+         poked as well); an op without a target (no stream yet, fifth open) is skipped, so every op list is executable.
          Every case ends with an implicit tail: release both proxies, advance the clock beyond lifetime+linger, housekeeping.
 Model  : per stream: source list, cursor, server state live / lingering(since) / forgotten(why), owning connection, creation
          time; client handle open / dead / dropped; per proxy: connected or not.
@@ -40,9 +42,10 @@ from vlib.driver import Violation
 
 PROPERTY = "C10"
 LEVEL = "exploration"
-RULE = ("a case = {config: {streaming, lifetime in 0|7|30, linger in 0|10|40}, plans: <= 4 item plans (kind gen|list|custom, <= 6 "
-        "(thorough <= 30) small core values, optional exception class at an index), ops: <= 26 of open/next/close/drop/disc/reco/"
-        "call/hk/adv} generated by Hypothesis, executed against a live daemon with a virtual clock next to a reference model. "
+RULE = ("a case = {config: {streaming, lifetime in 0|7|30, linger in 0|10|40}, plans: <= 3 item plans (kind gen|list|custom, <= 6 "
+        "(thorough, half of the shards: <= 30) small core values, optional exception class at an index), ops: 1-3 opens followed by "
+        "<= 25 of open/next/close/drop/disc/reco/call/hk/adv (three op-weight profiles: mixed, next-heavy, clock-heavy)} generated "
+        "by Hypothesis, executed against a live daemon (thread|multiplex x 4 serializers) with a virtual clock next to a reference model. "
         "Non-trivial: two streams received items in interleaved order, or a proxy with a registered stream was disconnected/"
         "reconnected, or a stream expired (lifetime or linger); distinct = distinct case JSON")
 ASSUMPTIONS = [
@@ -556,7 +559,7 @@ class _Run(object):
         if pending:
             self.forget(s, "background-expiry")
             return
-        self.viol("next:%s:expected-%s:got-%s" % (state0, exp[0] if exp[0] != "raise" else "raise-" + exp[1], obs_txt),
+        self.viol("next:%s:expected-%s:got-%s" % (state0, exp[0], obs_txt),
                   "stream %d (%s, %s) at cursor %d of %d: expected %s, got %s" % (
                       s.idx, s.token, state0, s.cursor, len(s.items), exp[0] if exp[0] == "stop" else exp[1], obs_txt))
 
@@ -655,10 +658,11 @@ def _table(**w):
     return t
 
 
+# generation-only macros (expanded into plain ops): lapse = adv+hk, bounce = disc+adv(small)+reco, leave = disc+adv+hk
 OPTABLES = {
-    "mixed": _table(next=45, adv=12, hk=9, disc=6, reco=9, open=5, call=6, close=4, drop=4),
-    "nexty": _table(next=70, adv=3, hk=3, disc=2, reco=6, open=5, call=5, close=3, drop=3),
-    "clocky": _table(next=36, adv=20, hk=14, disc=8, reco=12, open=2, call=4, close=2, drop=2),
+    "mixed": _table(next=41, adv=10, hk=8, disc=6, reco=8, open=5, call=6, close=4, drop=4, lapse=3, bounce=3, leave=2),
+    "nexty": _table(next=68, adv=3, hk=3, disc=2, reco=6, open=5, call=5, close=3, drop=3, bounce=2),
+    "clocky": _table(next=32, adv=12, hk=8, disc=6, reco=8, open=2, call=4, close=2, drop=2, lapse=9, bounce=8, leave=7),
 }
 
 SPECIAL = [None, True, False, 0.0, -0.0, float("nan"), float("inf"), 2**70, -2**63, "", "\x00", "é\U0010ffff", [], {},
@@ -671,6 +675,12 @@ def decode_ops(nums, table):
         name, arg = table[n % 100], n // 100
         if name == "hk":
             ops.append(["hk"])
+        elif name == "lapse":
+            ops.extend([["adv", DTS[arg % len(DTS)]], ["hk"]])
+        elif name == "bounce":
+            ops.extend([["disc", arg % 2], ["adv", [1, 2, 5, 9][arg // 2]], ["reco", arg % 2]])
+        elif name == "leave":
+            ops.extend([["disc", arg % 2], ["adv", [11, 31, 41, 10][arg // 2]], ["hk"]])
         elif name == "adv":
             ops.append(["adv", DTS[arg % len(DTS)]])
         elif name in ("open", "disc", "reco", "call"):
@@ -703,7 +713,7 @@ def case_strategy(draw, max_ops=25, max_items=6):
     least = draw(st.sampled_from([3, 6, 10, 15, 20]))
     nums = draw(st.lists(st.integers(0, 799), min_size=least, max_size=max_ops - len(opens)))
     return {"config": {"streaming": streaming, "lifetime": lifetime, "linger": linger}, "plans": plans,
-            "ops": [["open", p] for p in opens] + decode_ops(nums, table)}
+            "ops": ([["open", p] for p in opens] + decode_ops(nums, table))[:max_ops + 1]}
 
 
 def SHARDS(tier):
@@ -717,7 +727,7 @@ def run(ctx):
     try:
         strategy = case_strategy(max_ops=25, max_items=6 if ctx.tier == "quick" or sh.get("part", 0) % 2 == 0 else 30)
         strategy = strategy.map(lambda c: dict(c, servertype=servertype, serializer=serializer))
-        ctx.search(strategy, run_case, ctx.n(300, 25000),
+        ctx.search(strategy, run_case, ctx.n(500, 25000),
                    nontrivial=lambda c: _LAST["nontrivial"], labels=lambda c: _LAST["labels"],
                    name="streams-%s-%s-%s" % (servertype, serializer, sh.get("part", 0)), max_rounds=3, shrink_budget_s=ctx.n(25, 120))
     finally:
